@@ -161,7 +161,7 @@ def run_shard(spec, emit):
     tier, seed, shard, nshards = spec["tier"], spec["seed"], spec["shard"], spec["nshards"]
     sys.setswitchinterval(1e-6)
     rng = random.Random(f"{seed}:C11:{shard}")
-    budget = 75 if tier == "quick" else 1500
+    budget = 75 if tier == "quick" else 300
     deadline = time.monotonic() + budget
     samples = 0
 
